@@ -72,6 +72,7 @@ class Machine:
         self.leaks = []
         self.monitor_frames = False
         self.read_pending_unwritten = []
+        self.fresh_reads = False  # diagnostic switch: every read of a register written by this instruction returns the new value
 
     # registers
     def read_reg(self, op, tmp):
@@ -86,7 +87,7 @@ class Machine:
                 raise ILError("pending-read-before-write", key)
             self.read_pending_unwritten.append(key)
             return (w, self.cur[key])
-        if op.letter_x and self.rule_x and key in self.wrote:
+        if ((op.letter_x and self.rule_x) or self.fresh_reads) and key in self.wrote:
             return (w, self.new[key])
         if key not in self.cur:
             raise ILError("unknown-register", key + " (committed)")
@@ -198,7 +199,7 @@ class Program:
             if cls not in il.REG_CLASS_WIDTH:
                 raise ILError("malformed", "register class %s" % cls)
             w = il.REG_CLASS_WIDTH[cls]
-            L = {"INT": "R", "DOUBLE": "R", "PRED": "P", "CTR": "C", "MOD": "M", "GUEST": "G", "SYS": "S", "HVX": "V"}[cls.split("_")[3]]
+            L = "Q" if cls == "HEX_REG_CLASS_HVX_QR" else {"INT": "R", "DOUBLE": "R", "PRED": "P", "CTR": "C", "MOD": "M", "GUEST": "G", "SYS": "S", "HVX": "V"}[cls.split("_")[3]]
             pair = cls in ("HEX_REG_CLASS_DOUBLE_REGS",) or cls.endswith("64") or cls == "HEX_REG_CLASS_HVX_WR"
             key = "%s%d%s" % (L, num, (":%d" % (num + 1)) if pair else "")
             op = Op(key, w, False, new)
